@@ -14,9 +14,10 @@ f2003 and f2008 and handed as skeleton text to the model (`symglue.run`).  Compa
         flag; BLOCK names renumbered) with `populate`;
   (ii)  for every reference node, in source order, whether it is an
         Intrinsic_Function_Reference / Part_Ref / Structure_Constructor with the model's log;
-  (iii) when the model predicts an abort (InternalError for a DTIO only-entry,
-        FortranSyntaxError for a wrong argument count without wildcard import, a BLOCK under
-        f2003) the real parser must raise exactly that and leave no table behind;
+  (iii) when the model predicts an abort (FortranSyntaxError for a wrong argument count without
+        wildcard import, a BLOCK under f2003) the real parser must raise exactly that and leave
+        no table behind; a USE statement never aborts (a DTIO entry in an only-list is skipped
+        since repo commit bf50e4e: directed regression cases expect `ok`);
   (iv)  the generated call-site facts (Generated/SymGlueSites.lean, as served by the driver)
         equal a fresh inspection of the live source.
 
@@ -57,7 +58,7 @@ INTR_ARITY = {  # name -> (min, max or None): used only to bias the generator to
     "sqrt": (1, 1), "erf": (1, 1), "shiftl": (2, 2), "mod": (2, 2), "dim": (2, 2), "idim": (2, 2),
 }
 INTR = sorted(INTR_ARITY)
-PLAIN = ["foo", "bar", "Baz", "x1", "q"]
+PLAIN = ["foo", "bar", "Baz", "x1", "q", "only_q", "ONLYX"]
 MODS = ["m1", "M2", "mod_a", "Mod_A", "iso_x"]
 TYPES = {  # source text -> str(result[0])
     "integer": "INTEGER", "real": "REAL", "REAL(kind=8)": "REAL(KIND = 8)",
@@ -465,7 +466,7 @@ def check_case(m, std, src, skel, label):
 # --------------------------------------------------------------------------- directed cases
 
 def directed():
-    """(label, std list, source, skeleton)"""
+    """(label, std list, source, skeleton[, expected model status])"""
     g = lambda s: "g:" + _hex(s)       # noqa: E731
     i = lambda s: "i:" + _hex(s)       # noqa: E731
     out = []
@@ -500,7 +501,20 @@ def directed():
                 "S module m\nD %s k\nE\nS subroutine s\nA sin ss\nE" % i("INTEGER")))
     out.append(("DTIO entry in an only-list", ["f2003", "f2008"],
                 "module m\n use b, only: x, read(formatted), y\nend module m\n",
-                "S module m\nU b only n:x d:%s n:y\nE" % _hex("read(formatted)")))
+                "S module m\nU b only n:x d:%s n:y\nE" % _hex("read(formatted)"), "ok"))
+    out.append(("DTIO entries alone / first / last, with operators and renames", ["f2003", "f2008"],
+                "subroutine s\n use b, only: write(unformatted)\n use c, only: read(unformatted), sin, operator(+), cos => z, WRITE (FORMATTED)\n"
+                " r1 = sin(x)\n r2 = cos(x)\n r3 = tan(x)\n r4 = sin(x, 2)\nend subroutine s\n",
+                "S subroutine s\nU b only d:%s\nU c only d:%s n:sin g:%s r:cos:z d:%s\nA sin s\nA cos s\nA tan s\nA sin ss\nE"
+                % (_hex("write(unformatted)"), _hex("read(unformatted)"), _hex("operator(+)"), _hex("WRITE (FORMATTED)")), "ok"))
+    out.append(("rename list whose first local name begins with `only`", ["f2003", "f2008"],
+                "subroutine s\n use b, only_n => n\n use c, ONLYSIN => cos, sin => q, operator(.p.) => operator(.q.)\n use d, only1 => z\n"
+                " use e, Only_ => w, tan => only\n r1 = sin(x)\n r2 = cos(x)\n r3 = tan(x)\n r4 = onlysin(x)\n r5 = abs(x, 2)\nend subroutine s\n",
+                "S subroutine s\nU b ren r:only_n:n\nU c ren r:ONLYSIN:cos r:sin:q o:p:q\nU d ren r:only1:z\nU e ren r:Only_:w r:tan:only\n"
+                "A sin s\nA cos s\nA tan s\nA onlysin s\nA abs ss\nE", "ok"))
+    out.append(("`only` as keyword next to names beginning with `only`", ["f2003", "f2008"],
+                "module m\n use b, only : only_n => n, only2\n use c, ONLY:only\n use d, only:\n use e, ONLY :\n use f, a => b, only => g\nend module m\n",
+                "S module m\nU b only r:only_n:n n:only2\nU c only n:only\nU d onlynone\nU e onlynone\nU f ren r:a:b r:only:g\nE", "ok"))
     out.append(("what records nothing", ["f2003", "f2008"],
                 "subroutine s(sin, a2)\n type(tq) :: cos\n parameter (tan = 3)\n dimension abs(3)\n external max\n type tz\n  integer :: min\n end type tz\n"
                 " sqrt(zq) = zq + 1\n dim = 1\n r1 = sin(x)\n r2 = cos(x)\n r3 = tan(x)\n r4 = abs(1)\n r5 = max(1, 2)\n r6 = min(1, 2)\n r7 = sqrt(x)\n r8 = dim(1, 2)\n"
@@ -540,7 +554,8 @@ def negative_controls(m, cases):
 
     def run_all():
         n = 0
-        for label, stds, src, skel in cases:
+        for case in cases:
+            label, stds, src, skel = case[:4]
             for std in stds:
                 pr, _ = check_case(m, std, src, skel, label)
                 n += 1 if pr else 0
@@ -605,7 +620,7 @@ def negative_controls(m, cases):
                         elif isinstance(child, F.Rename):
                             if not child.children[0]:
                                 only_list.append((child.children[1].string, child.children[2].string))
-                        elif isinstance(child, F.Generic_Spec):
+                        elif isinstance(child, (F.Generic_Spec, F.Dtio_Generic_Spec)):
                             break
                 elif isinstance(result[4], F.Rename_List):
                     rename_list = []
@@ -622,7 +637,7 @@ def negative_controls(m, cases):
     assert ST.SymbolTable.add_use_symbols is orig_add_use
 
     # mutant 4: of the expectation (a declaration dropped from the skeleton)
-    label, stds, src, skel = cases[2]
+    label, stds, src, skel = cases[2][:4]
     pr, _ = check_case(m, stds[0], src, skel.replace(" dsin abs", " abs"), label)
     det["expectation mutated"] = len(pr)
 
@@ -647,6 +662,9 @@ def check_sites(m):
     for idx, key in ((1, "scoping2003"), (2, "scoping2008"), (3, "onlyAlternatives"), (4, "primaryAlternatives")):
         if got[idx] != ",".join(f[key]):
             probs.append("Generated/SymGlueSites.lean %s stale: generated %r live %r" % (key, got[idx], f[key]))
+    live_br = ",".join("%s:%s" % e for e in f["onlyLoopBranches"])
+    if len(got) < 6 or got[5] != live_br:
+        probs.append("Generated/SymGlueSites.lean onlyLoopBranches stale: generated %r live %r" % (got[5:6], live_br))
     return probs, f
 
 
@@ -672,10 +690,13 @@ def main(argv=None):
     stats["call_sites"] = len(f["callSites"])
 
     cases = directed()
-    for label, stds, src, skel in cases:
+    for case in cases:
+        label, stds, src, skel = case[:4]
         for std in stds:
             pr, status = check_case(m, std, src, skel, "directed: " + label)
             failures += pr
+            if len(case) > 4 and status != case[4]:
+                failures.append("directed: %s [%s]: expected status %s, model says %s" % (label, std, case[4], status))
             stats["cases"] += 1
     ndirected = stats["cases"]
 
@@ -711,6 +732,9 @@ def main(argv=None):
         else:
             stats["aborts"][status] = stats["aborts"].get(status, 0) + 1
 
+    # informational probe (text level, outside this model): a rename list whose FIRST local name is
+    # exactly `only` is still taken for the keyword by Use_Stmt._match
+    probe = real_run("module m\n use f, only => g\nend module m\n", "f2003")[0]
     nfail, det = negative_controls(m, cases)
     failures += nfail
 
@@ -722,6 +746,7 @@ def main(argv=None):
           (stats["refs"], stats["intrinsic"], stats["partref"], stats["structcons"]))
     print("  call sites %d (generated == live)" % stats["call_sites"])
     print("  negative controls (disagreements provoked): %s" % det)
+    print("  note (not part of the verdict): `use f, only => g` (first local name exactly `only`) -> %s" % probe)
     if stats["cases"] - ndirected > 20 and (stats["intrinsic"] == 0 or stats["partref"] == 0 or stats["uses"] == 0):
         failures.append("vacuous run: no intrinsic / shadowed reference or no USE was exercised")
     for fl in failures[:10]:
